@@ -184,7 +184,9 @@ class CombinedDataHandler:
             unexpected_units["county_fips"] = unexpected_units["geographic_unit_fips"].apply(
                 self._get_county_fips_from_geographic_unit_fips
             )
-        if "district" in aggregates:
+        # in district elections every aggregate is computed within a district (see DEFAULT_AGGREGATES), so we need the
+        # district of an unexpected unit whenever it is part of the unit id, not only when it is a requested aggregate
+        if "district" in aggregates or "district" in self.geographic_unit_type:
             unexpected_units["district"] = unexpected_units["geographic_unit_fips"].apply(
                 self._get_district_from_geographic_unit_fips
             )
